@@ -1,7 +1,9 @@
 """Facts regenerated from /repo's SOURCE on every run (harness `facts` engine: go/parser + go/ast) and checked against the model:
 F1 (registered commands) is written to lean/RedisGoModel/Generated/Commands.lean and a `decide`d Lean theorem (Props/C04.lean) requires
 every registered command to be one the model knows; F3 (index / slice / assertion / make / division sites with the minimum length the
-dominating guards guarantee, harness/sites.go) is written to Generated/Sites.lean and closed by Props/C04Sites.lean; F2 (CheckTTL/lock skeleton per executor; ALSO written to Generated/Skeletons.lean and closed by Props/FactsF2.lean), F4 (order of the Ready arm) and F5 (raft
+dominating guards guarantee, harness/sites.go) is written to Generated/Sites.lean and closed by Props/C04Sites.lean; F4 is also written to
+Generated/ReadyArm.lean and `ReadyLoop.C08Ready.arm_is_source_arm` (Props/C08Ready.lean) requires it to be the arm of the loop model;
+F2 (CheckTTL/lock skeleton per executor; ALSO written to Generated/Skeletons.lean and closed by Props/FactsF2.lean), F4 (order of the Ready arm) and F5 (raft
 Config literals) are compared with the committed expectations in /verif/expectations/facts.json."""
 import collections
 import json
@@ -14,6 +16,7 @@ GEN = os.path.join(core.LEAN, "RedisGoModel", "Generated", "Commands.lean")
 GEN_SKEL = os.path.join(core.LEAN, "RedisGoModel", "Generated", "Skeletons.lean")
 GEN_SITES = os.path.join(core.LEAN, "RedisGoModel", "Generated", "Sites.lean")
 SITES_PROP = os.path.join(core.LEAN, "RedisGoModel", "Props", "C04Sites.lean")
+GEN_ARM = os.path.join(core.LEAN, "RedisGoModel", "Generated", "ReadyArm.lean")
 EXPECT = os.path.join(core.VERIF, "expectations", "facts.json")
 # which properties lean on which fact
 USERS = {"F1": ["C04"], "F3": ["C04"], "F2": ["C05", "C06", "C13"], "F4": ["C08"], "F5": ["C15"]}
@@ -44,6 +47,15 @@ def write_generated(facts):
     if old != src:
         os.makedirs(os.path.dirname(GEN), exist_ok=True)
         open(GEN, "w").write(src)
+    # fact F4 for the loop model: Props/C08Ready.lean proves `ReadyLoop.armOrder = Generated.readyArm` by `decide` on every run, so the
+    # theorems about the model's arm are theorems about the arm in the source (a reordered / dropped call breaks that proof)
+    arm = facts.get("ready_arm") or []
+    src = ("/-! GENERATED on every check run from /repo/raftexample/raft.go (calls of serveChannels' Ready arm, go/ast) — do not edit. -/\n"
+           "namespace Generated\n\n/-- fact F4: the calls of the Ready arm in source order -/\n"
+           "def readyArm : List String := [" + ", ".join('"%s"' % n for n in arm) + "]\n\nend Generated\n")
+    old = open(GEN_ARM).read() if os.path.exists(GEN_ARM) else None
+    if old != src:
+        open(GEN_ARM, "w").write(src)
 
 
 def _lstr(x):
